@@ -723,8 +723,153 @@ def rule_block_origin(model):
     return r
 
 
+def _block_attrs(ci):
+    """Attributes of a tag class that hold a compiled block list: assigned
+    from `<section>.blocks` by one of its methods."""
+    out = set()
+    for fi in ci.methods.values():
+        for n in own_nodes(fi.node):
+            if isinstance(n, ast.Assign) and isinstance(
+                    n.value, ast.Attribute) and n.value.attr == 'blocks':
+                for t in n.targets:
+                    if isinstance(t, ast.Attribute) and isinstance(
+                            t.value, ast.Name) and t.value.id == 'self':
+                        out.add(t.attr)
+    return out
+
+
+def rule_body_only_rendered(model):
+    r = RuleResult('C01.R8', 'the text of a block body reaches the output '
+                   'only by rendering the body: outside the constructors the '
+                   'compiled block lists of a tag are handed to '
+                   'render_blocks (or passed on to a function that does so) '
+                   'and never taken apart, measured, repeated or returned '
+                   '(a short cut that emits body text by itself bypasses '
+                   'the per-element work: guards, skipped elements, '
+                   'bindings)')
+    from ..shared import shared_classes
+    sc = shared_classes(model)
+    # (function where) -> set of local / parameter names bound to a body
+    holders = {}
+    attrs_of = {}
+    funcs = {fi.where: fi for fi in model.all_funcs()}
+    for kind, ci in sc.values():
+        if kind != 'tag':
+            continue
+        ba = _block_attrs(ci)
+        if not ba:
+            continue
+        for fi in ci.methods.values():
+            if fi.name == '__init__':
+                continue
+            attrs_of[fi.where] = ba
+            holders.setdefault(fi.where, set())
+
+    def body_expr(e, fi):
+        if isinstance(e, ast.Attribute) and isinstance(e.value, ast.Name) \
+                and e.value.id == 'self' and \
+                e.attr in attrs_of.get(fi.where, ()):
+            return True
+        return isinstance(e, ast.Name) and e.id in holders.get(fi.where, ())
+    changed = True
+    rounds = 0
+    while changed and rounds < 8:
+        changed = False
+        rounds += 1
+        for w in list(holders):
+            fi = funcs[w]
+            for n in own_nodes(fi.node):
+                if isinstance(n, ast.Assign) and body_expr(n.value, fi):
+                    for t in n.targets:
+                        if isinstance(t, ast.Name) and \
+                                t.id not in holders[w]:
+                            holders[w].add(t.id)
+                            changed = True
+                if isinstance(n, ast.Call):
+                    for t in model.resolve_callee(n.func, fi):
+                        if t[0] != 'func' or \
+                                t[1].module.short == '_DocumentTemplate':
+                            continue
+                        callee = t[1]
+                        ps = callee.params()
+                        off = 1 if (callee.cls is not None and
+                                    ps[:1] == ['self'] and
+                                    isinstance(n.func, ast.Attribute)) else 0
+                        for i, a in enumerate(n.args):
+                            if body_expr(a, fi) and i + off < len(ps):
+                                hs = holders.setdefault(callee.where, set())
+                                if ps[i + off] not in hs:
+                                    hs.add(ps[i + off])
+                                    changed = True
+                        for kw in n.keywords:
+                            if kw.arg in ps and body_expr(kw.value, fi):
+                                hs = holders.setdefault(callee.where, set())
+                                if kw.arg not in hs:
+                                    hs.add(kw.arg)
+                                    changed = True
+    n_use = 0
+    from ..model import parent as _parent
+    for w in sorted(holders):
+        fi = funcs[w]
+        aliases = {'render_blocks'}
+        for n in own_nodes(fi.node):
+            if isinstance(n, ast.Assign) and isinstance(
+                    n.value, ast.Name) and n.value.id == 'render_blocks' \
+                    and isinstance(n.targets[0], ast.Name):
+                aliases.add(n.targets[0].id)
+        for n in own_nodes(fi.node):
+            if not (isinstance(n, (ast.Name, ast.Attribute)) and
+                    isinstance(getattr(n, 'ctx', None), ast.Load) and
+                    body_expr(n, fi)):
+                continue
+            par = _parent(n)
+            if isinstance(par, ast.Attribute):
+                continue                  # self.section seen as `self`
+            n_use += 1
+            verdict = None
+            if isinstance(par, ast.Call) and (n in par.args or any(
+                    kw.value is n for kw in par.keywords)):
+                f = par.func
+                if (isinstance(f, ast.Name) and f.id in aliases) or any(
+                        t[0] == 'func' for t in
+                        model.resolve_callee(f, fi)):
+                    verdict = 'rendered / passed on'
+                elif isinstance(f, ast.Name) and f.id in (
+                        'len', 'list', 'tuple', 'iter', 'enumerate',
+                        'sorted', 'reversed', 'str', 'repr'):
+                    verdict = None
+                else:
+                    verdict = 'rendered / passed on'
+            elif isinstance(par, ast.Assign) and par.value is n:
+                verdict = 'alias'
+            elif isinstance(par, (ast.If, ast.While, ast.IfExp)) and \
+                    par.test is n:
+                verdict = 'emptiness test'
+            elif isinstance(par, (ast.BoolOp, ast.UnaryOp)):
+                verdict = 'emptiness test'
+            elif isinstance(par, ast.Compare) and all(
+                    isinstance(o, (ast.Is, ast.IsNot)) for o in par.ops):
+                verdict = 'identity test'
+            elif isinstance(par, (ast.Tuple, ast.List)) and isinstance(
+                    _parent(par), ast.Call):
+                verdict = 'rendered / passed on'
+            r.instance(fi.where, par if par is not None else n,
+                       verdict or 'TAKEN APART')
+            if verdict is None:
+                r.finding(fi.where, par, f'the compiled body `{norm(n)}` is '
+                          'inspected or used other than by rendering it: '
+                          'body text can reach the output (or be '
+                          'suppressed) without the tag\'s per-element '
+                          'rendering', node=par, ctx=fi)
+    if n_use < 12:
+        raise AnalysisError(f'C01.R8: only {n_use} uses of compiled bodies '
+                            'found')
+    return r
+
+
 RULES = [rule_eol, rule_who_skips, rule_provenance, rule_prefix_widths,
-         rule_tag_identity, rule_epfs_upper, rule_block_origin]
+         rule_tag_identity, rule_epfs_upper, rule_block_origin,
+         rule_body_only_rendered]
 EXPLANATION = (
     'Regex language inclusion of the line-end pattern in [ \\t]*\\n; '
     'who-may-call query for skip_eol with origin pairing of its argument; '
